@@ -23,7 +23,7 @@ type d12Fault struct {
 	Kind   string `json:"kind"`
 }
 
-var d12APIFaults = []string{"500", "422", "504-before", "504-after", "transport-before", "transport-after"}
+var d12APIFaults = []string{"500", "422", "410", "504-before", "504-after", "transport-before", "transport-after"}
 var d12HookFaults = []string{"500", "503", "refused", "garbage", "429"}
 var d12Races = []string{"race-delete", "race-create", "race-edit"}
 
@@ -134,6 +134,8 @@ func d12Run(t *testing.T, fin bool, f *d12Fault, ref *d12Ref) *d12Ref {
 					return &sim.Fault{Code: 500}
 				case "422":
 					return &sim.Fault{Code: 422}
+				case "410":
+					return &sim.Fault{Code: 410}
 				case "504-before":
 					return &sim.Fault{Code: 504}
 				case "504-after":
